@@ -305,6 +305,10 @@ def refSplitVa (m : Macro) (args : List (List HTok)) : List (List HTok) × List 
           | [] => []
           | a :: r => a ++ r.flatMap (fun x => (⟨commaTok, []⟩ : HTok) :: x))
 
+/-- the replacement list of an object-like macro with the new hide set -/
+def refBody (m : Macro) (hs : List String) : List HTok :=
+  m.body.filterMap fun b => match b with | .raw x => some ⟨x, hs⟩ | _ => none
+
 mutual
   /-- C11 6.10.3.4 in Prosser's formulation -/
   def expandR : Nat → List Macro → List HTok → RRes (List HTok)
@@ -321,9 +325,7 @@ mutual
       | some m =>
         if t.hs.contains m.name then keep
         else if !m.isFn then
-          let hs := hsUnion t.hs [m.name]
-          let body : List HTok := m.body.filterMap fun b => match b with | .raw x => some ⟨x, hs⟩ | _ => none
-          expandR f tbl (body ++ ts)
+          expandR f tbl (refBody m (hsUnion t.hs [m.name]) ++ ts)
         else
           match ts with
           | p :: ts' =>
